@@ -2,6 +2,11 @@
 import gen
 
 PROPS = {
+    "C08": dict(
+        files=[("op", "c08_op.rs")],
+        bounds="primitive pairs fully symbolic (all number representations, strings <= 2 symbolic chars); containers [] [7] {} {a:null}",
+        out="non-empty containers through Operation::evaluate; strings longer than 2 characters",
+    ),
     "C07": dict(
         files=[("op", "c07_op.rs")], generated_files=[],
         generators=[gen.gen_c07],
